@@ -788,6 +788,9 @@ def c11(tier):
         sched_spec('two-senders-compressed', tags, [['send_text'], ['send_binary']], 1,
                    W + '; with permessage-deflate and context takeover the reference peer must inflate in wire order',
                    compress=dict(client_no_takeover=False)),
+        sched_spec('two-senders-compressed-no-takeover', tags, [['send_text'], ['send_binary']], 1,
+                   W + '; permessage-deflate with client_no_context_takeover: the peer resets its inflater after every message, so every message on the wire '
+                       'must have been deflated from a fresh context', compress=dict(client_no_takeover=True)),
     ]
     if not q:
         specs += [sched_spec('three-senders', tags, [['send_text'], ['send_binary'], ['send_ping']], 2, W),
